@@ -3,9 +3,9 @@
 
    Per coefficient: one list of limbs, most significant first (limb j has weight 2^{-(j+1) b}).
      enc_i64 / enc_i128 / (coefficient form = enc_i64 on one index)      encode_vec_i64 / encode_vec_i128 / encode_coeff_i64
-     dec_vec 64 / dec_vec 128 / dec_coeff                               decode_vec_i64 / decode_vec_i128 / decode_coeff_i64
+     dec_vec 64 / dec_vec 128 / dec_coeff_i64                               decode_vec_i64 / decode_vec_i128 / decode_coeff_i64
      dec_float                                                          decode_vec_float (exact: value = num / 2^e)
-     div_round 64 / div_round 128                                       div_round_i64 / div_round_i128
+     e_div_round 64 / e_div_round 128                                       div_round_i64 / div_round_i128
    The private normalisation steps of encoding.rs are textually the kernels of reference/znx/normalization.rs, i.e.
    `first_step_assign`, `middle_step_assign`, `final_step_assign` of Model/Znx.v at w = 64 (imported, not re-modelled).
 
@@ -25,7 +25,7 @@ Definition enc_krem (b k : Z) : Z := (b - k mod b) mod b.
 Definition wabs (w x : Z) : Z := wrap w (Z.abs x).
 
 (* div_round_i64 / div_round_i128 (private to the module: only ever called with b = 2^rem, 1 <= rem < base2k) *)
-Definition div_round (w a b : Z) : Z :=
+Definition e_div_round (w a b : Z) : Z :=
   let q := Z.quot a b in
   let r := Z.rem a b in
   if wmul w 2 (wabs w r) >=? wabs w b then wadd w q (wmul w (Z.sgn a) (Z.sgn b)) else q.
@@ -75,18 +75,18 @@ Definition enc_i128 (b k : Z) (a_size : nat) (v : Z) : list Z :=
 Definition dec_step (w b k : Z) (size : nat) (y : Z) (j : nat) (x : Z) : Z :=
   let rem := b - k mod b in
   if Nat.eqb j (size - 1) && negb (rem =? b)
-  then wadd w (shl w y ((b - rem) mod b)) (div_round w x (shl w 1 rem))
+  then wadd w (shl w y ((b - rem) mod b)) (e_div_round w x (shl w 1 rem))
   else wadd w (shl w y b) x.
 
 (* decode_vec_i64 (w = 64) / decode_vec_i128 (w = 128) *)
 Definition dec_vec (w b k : Z) (l : list Z) : Z :=
   let size := enc_size b k in
   let rem := b - k mod b in
-  if k <? b then div_round w (nthZ l 0) (shl w 1 rem)
+  if k <? b then e_div_round w (nthZ l 0) (shl w 1 rem)
   else fold_left (fun y i => dec_step w b k size y i (nthZ l i)) (seq 1 (size - 1)) (nthZ l 0).
 
 (* decode_coeff_i64 *)
-Definition dec_coeff (b k : Z) (l : list Z) : Z :=
+Definition dec_coeff_i64 (b k : Z) (l : list Z) : Z :=
   let size := enc_size b k in
   fold_left (fun y j => dec_step 64 b k size y j (nthZ l j)) (seq 0 size) 0.
 
@@ -144,14 +144,14 @@ Definition dec_vec_flat (w b k : Z) (dbg : bool) (s : shape) (buf data0 : list Z
   if e_ok s buf && ((k <? b) || Nat.leb size (s_size s))
      && (if w =? 64 then Nat.eqb dlen (s_n s) else negb dbg || Nat.leb (s_n s) dlen)
   then Some (firstn dlen (map (dec_vec w b k) (e_coeffs s buf))
-             ++ (if k <? b then map (fun x => div_round w x (shl w 1 (b - k mod b))) (skipn (s_n s) data0)
+             ++ (if k <? b then map (fun x => e_div_round w x (shl w 1 (b - k mod b))) (skipn (s_n s) data0)
                  else skipn (s_n s) data0))
   else None.
 
 Definition dec_coeff_flat (b k : Z) (s : shape) (buf : list Z) (idx : nat) : option Z :=
   let size := enc_size b k in
   if e_ok s buf && Nat.ltb idx (s_n s) && Nat.leb size (s_size s)
-  then Some (dec_coeff b k (nth idx (e_coeffs s buf) []))
+  then Some (dec_coeff_i64 b k (nth idx (e_coeffs s buf) []))
   else None.
 
 Definition dec_float_flat (b : Z) (s : shape) (buf : list Z) : option (list (list Z)) :=
@@ -185,12 +185,12 @@ Definition run_c08_enc (code : Z) (ps : list Z) (vs : list (list Z)) : option (l
 (* ---------------- the statement, evaluated on implementation outputs (spec-level notions only) ---------------- *)
 
 (* integer value of a most-significant-first digit list in radix 2^b *)
-Definition lval (b : Z) (l : list Z) : Z := fold_left (fun acc x => acc * 2 ^ b + x) l 0.
+Definition e_lval (b : Z) (l : list Z) : Z := fold_left (fun acc x => acc * 2 ^ b + x) l 0.
 
 (* the values a balanced expansion of `size` limbs at precision k can represent: [enc_lo, enc_hi], 2^k of them *)
 Definition enc_lo (b k : Z) : Z :=
   let k' := b - enc_krem b k in
-  lval b (repeat (- 2 ^ (b - 1)) (enc_size b k - 1)) * 2 ^ k' - 2 ^ (k' - 1).
+  e_lval b (repeat (- 2 ^ (b - 1)) (enc_size b k - 1)) * 2 ^ k' - 2 ^ (k' - 1).
 Definition enc_hi (b k : Z) : Z := enc_lo b k + 2 ^ k - 1.
 Definition enc_fits (b k v : Z) : bool := (enc_lo b k <=? v) && (v <=? enc_hi b k).
 
@@ -207,7 +207,7 @@ Definition enc_coeff_ok (w b k v d : Z) (l : list Z) : bool :=
   let top := firstn size l in
   forallb (fun x => x =? 0) (skipn size l)
   && forallb (in_rangeb b) top
-  && ((lval b top - v * 2 ^ krem) mod 2 ^ (Z.of_nat size * b) =? 0)
+  && ((e_lval b top - v * 2 ^ krem) mod 2 ^ (Z.of_nat size * b) =? 0)
   && (nthZ l (size - 1) mod 2 ^ krem =? 0)
   && in_rangeb w d
   && ((d - v) mod 2 ^ (Z.min k w) =? 0)
@@ -238,7 +238,7 @@ Definition dec_clean_ok (w b k d : Z) (l : list Z) : Z :=
   let top := firstn size l in
   if (1 <=? b) && (b <=? 62) && (1 <=? k) && (k <=? w - 2) && Nat.leb size (length l)
      && forallb (in_rangeb b) top && (nthZ l (size - 1) mod 2 ^ krem =? 0)
-  then e_ob (d * 2 ^ krem =? lval b top) else 2.
+  then e_ob (d * 2 ^ krem =? e_lval b top) else 2.
 
 Fixpoint e_min_verdict (l : list Z) : Z :=
   match l with
@@ -263,11 +263,11 @@ Definition oracle_c08_enc (code : Z) (ps : list Z) (vs outs : list (list Z)) : Z
       if negb (e_ok s buf) then 2 else
       dec_clean_ok 64 b k (nthZ (e_v outs 0) 0) (nth (Z.to_nat (e_p ps 12)) (e_coeffs s buf) [])
   | 8307 =>
-      (* arbitrary-precision decoding = sum_j limb_j 2^{-(j+1) b}, i.e. lval b limbs / 2^(size b), exactly *)
+      (* arbitrary-precision decoding = sum_j limb_j 2^{-(j+1) b}, i.e. e_lval b limbs / 2^(size b), exactly *)
       if negb (e_ok s buf && (1 <=? b) && (b <=? 62)) then 2 else
       let W := float_nwords b (s_size s) in
       e_ob (Nat.eqb (length outs) (s_n s)
-            && forallb (fun q => e_list_eqb (snd q) (float_words W (lval b (fst q))))
+            && forallb (fun q => e_list_eqb (snd q) (float_words W (e_lval b (fst q))))
                        (combine (e_coeffs s buf) outs))
   | _ => 2
   end.
